@@ -11,7 +11,7 @@ CHECKS = {
    ref='6/C09'),
  'C12': dict(level='other', engine='S-exp',
    technique='symbolic execution of rustc MIR in the exponent domain of Fq12^*; resulting exponent compared with 3(q^12-1)/r by z3 integer queries',
-   text='final_exponentiation (with nested exp_by_x) is executed from MIR on a formal generator of the cyclic group Fq12^*; the single resulting exponent is shown congruent to 3(q^12-1)/r modulo q^12-1, divisible by q^d-1 for d=1,2,4,6, killed by r; None iff input zero.',
+   text='final_exponentiation (with nested exp_by_x) is executed from MIR on g^e for a formal generator g of the cyclic group Fq12^* and a SYMBOLIC integer e: values are g^(c e) with concrete c, and every data-dependent test (is_zero, ==, Fq6 halves zero) is a congruence on e, so shortcuts for subfield / w*Fq6 / unitary inputs fork the execution. Without such branches the single resulting exponent is shown congruent to 3(q^12-1)/r modulo q^12-1, divisible by q^d-1 for d=1,2,4,6, killed by r; with them the obligation is E(e) e = (3(q^12-1)/r) e mod q^12-1 for every e on every branch. None iff input zero. Counterexamples are replayed natively on structured inputs (0, +-1, u, v, w, Fq/Fq2/Fq6 elements, w*Fq6, random) against f^(3(q^12-1)/r) from the reference tower.',
    note='Assumes the action of Fq12 mul/square/inverse/conjugate/Frobenius/pow on exponents (C09) and the contract of Field::pow. All units and zero are covered; no loop bound other than the 64-bit pow exponent handled as a leaf.',
    ref='6/C12'),
 }
@@ -19,12 +19,12 @@ CHECKS = {
 CHECKS.update({
  'C14': dict(level='other', engine='S-euf + S-ring + native replay',
    technique='symbolic execution of rustc MIR with uninterpreted stage functions (EUF) + ring-domain analysis of add_assign with symbolic curve coefficient, decided by z3; counterexamples replayed natively',
-   text='The blanket MapToCurve impl is executed from MIR with sswu/iso/clear_h/add as uninterpreted functions over curve-tagged points; z3 shows the result term is the RFC composition (modulo the isogeny homomorphism law) and that every add_assign call site is valid on the curve its operands live on, by analysing the real add_assign MIR with a symbolic coefficient a (the equal-operands branch is the tangent law only for a=0). Special pairs (u,u), (u,-u), (0,0), random are replayed natively in dev and release against map(u0)+map(u1).',
+   text='The blanket MapToCurve impl is executed from MIR with sswu/iso/clear_h/add as uninterpreted functions over curve-tagged points; z3 shows the result term is the RFC composition (modulo the isogeny homomorphism law) and that every add_assign call site is valid on the curve its operands live on, by analysing the real add_assign MIR with a symbolic coefficient a (the equal-operands branch is the tangent law only for a=0). Code that computes with the inputs first (field operations are uninterpreted too) is covered. Special pairs (u,u), (u,-u), (0,0), colliding SSWU images, random are replayed natively in dev and release against map(u0)+map(u1).',
    note='Stages themselves are C15/C16/C17; add on E is C01. Found a genuine defect (map2_to_curve(u,u)), repaired by a fix: commit; see known_findings.json.',
    ref='6/C14, 7'),
  'C17': dict(level='other', engine='S-exp',
    technique='symbolic execution of rustc MIR in the exponent domain (abelian-group abstraction) with a symbolic integer exponent; linear integer identities decided by z3',
-   text='chain_z, chain_h2_eff and ClearH for G1/G2 are executed from MIR on a point with symbolic exponent e; z3 shows the result is h_eff*e for independent literals of h_eff (G1: 0xd201000000010001, G2: the 636-bit RFC constant = 3(x^2-1)h2), hence additive and O -> O, for every point of the full curve group.',
+   text='chain_z, chain_h2_eff and ClearH for G1/G2 are executed from MIR on a point with symbolic exponent e; z3 shows the result is h_eff*e for independent literals of h_eff (G1: 0xd201000000010001, G2: the 636-bit RFC constant = 3(x^2-1)h2), hence additive and O -> O. A second pass runs the code on a generator of SYMBOLIC FINITE order m | #E (m given by its prime exponents over the factorisation of h*r, so every is_zero / == the code may apply to an intermediate point is a linear constraint) and shows m | (c_result - h_eff) on every branch: points of small order included. A counterexample order is replayed natively on a point of exactly that order.',
    note='Assumes curve operations form an abelian group (C01); that [h_eff] lands in the order-r subgroup is group-structure theory (RFC 9380 8.8), trusted.',
    ref='6/C17'),
 })
@@ -42,8 +42,8 @@ CHECKS.update({
    ref='6/C02'),
  'C10': dict(level='other', engine='S-exp/bv',
    technique='symbolic execution of rustc MIR with one inductive step per Pippenger window position (cut point at the outer loop head), symbolic bucket indices, unwinding obligations; z3 QF_BV',
-   text='sum_of_products_pippinger: from an arbitrary accumulator and identity buckets one execution of the real loop body is shown to produce res\' = 2^d res + sum digit_i e_i, buckets identity again, next position per schedule, for all scalars < 2^255; window arithmetic facts close the induction. Digit extraction/index safety/max_bucket for windows up to 20 from recorded bucket updates. find_pippinger_window in 1..=16 and monotone for every usize; sum_of_products delegates with min length; precomp_256 variant for all 256-bit scalars.',
-   note='Quick: windows 1..4 (n<=3) at one position per control-flow class; thorough: windows 1..8 at every position, digits for every window 1..=20. Bucket reduction for windows 9..20 and n>3 outside the claim. Group law assumed (C01).',
+   text='sum_of_products_pippinger: from an arbitrary accumulator and identity buckets one execution of the real loop body is shown to produce res\' = 2^d res + sum digit_i e_i, buckets identity again, next position per schedule, for all scalars < 2^255; window arithmetic facts close the induction. Digit extraction/index safety/max_bucket for every window 1..=20 with a SYMBOLIC bit position 0..=255 (all three extraction branches, recorded bucket updates, soundness and completeness) in both tiers. find_pippinger_window in 1..=16 and monotone for every usize; sum_of_products delegates with min length; precomp_256 variant for all 256-bit scalars.',
+   note='Full step incl. reduction: quick windows 1..4 (n<=3) at one position per control-flow class; thorough windows 1..8 at every position (and digit extraction again at every concrete schedule position). Bucket reduction for windows 9..20 and n>3 outside the claim. Group law assumed (C01).',
    ref='6/C10'),
 })
 
@@ -88,7 +88,7 @@ CHECKS.update({
    ref='6/C08'),
  'C11': dict(level='other', engine='S-monoid',
    technique='symbolic execution of the Miller-loop MIR over the free abelian group on formal line-evaluation generators; identity-operand patterns enumerated; exact vector comparison (no unknowns remain after execution)',
-   text='Joint Miller loop = product of single-pair loops over the non-identity pairs for all 4^n identity patterns (n <= 2 quick, 3 thorough); each pair consumes exactly its own 68 coefficients in order (67 makes unwrap fail); single-loop schedule equals an independent transcription of the optimal-ate loop for |x|/2; G2Prepared::from_affine produces 68 coefficients in doubling/addition order; pairing / pairing_product / pairing_multi_product build the lists in order and exponentiate once.',
+   text='Joint Miller loop = product of single-pair loops over the non-identity pairs for all 4^n identity patterns (n <= 2 quick, 3 thorough); each pair consumes exactly its own 68 coefficients in order (67 makes unwrap fail); single-loop schedule equals an independent transcription of the optimal-ate loop for |x|/2; G2Prepared::from_affine produces 68 coefficients in doubling/addition order; pairing / pairing_product / pairing_multi_product return the final exponentiation of the formal product of exactly the pairs (p_i, q_i) (one Miller loop or a product of several: both accepted), list lengths 0..3, 5, 15..18, 31..33, 64, 65, 100 (thorough up to 1000).',
    note='Partial: the value e(g1,g2)^(sum a_i b_i) needs bilinearity (C03, not applicable). Fq12 commutativity and sparse products from C09, multiplicativity of the final exponentiation from C12. No SMT query is needed here because execution over formal generators leaves no symbolic unknowns; stated as such.',
    ref='6/C11'),
  'C13': dict(level='model_checking', engine='S-euf + K-mock + K-bits',
